@@ -68,6 +68,7 @@ def run_unit(unit, fn_override=None):
                                      'model': None, 'detail': '', 'cover': getattr(ob, 'is_cover', False)})
         a['instances'] += 1
         a['seconds'] += ob.seconds
+        a.setdefault('backends', set()).add(ob.backend)
         if not ob.ok:
             if ob.status == 'unknown':
                 a['unknown'] += 1
@@ -75,6 +76,7 @@ def run_unit(unit, fn_override=None):
                 a['failed'] += 1
             if a['model'] is None:
                 a['model'] = ob.model
+                a['backend'] = ob.backend
                 a['detail'] = ob.detail
                 a['path'] = ob.path
                 a['smt2'] = getattr(ob, 'smt2', None)
@@ -193,7 +195,8 @@ def check_property(prop, modname, tier='quick', native=None, workers=None, extra
             n_ob += 1
             ok = a['failed'] == 0 and a['unknown'] == 0
             ob_list.append({'name': name, 'unit': u.name, 'instances': a['instances'],
-                            'discharged': ok, 'backend': 'z3 %s' % _z3v(), 'seconds': round(a['seconds'], 4)})
+                            'discharged': ok, 'backend': '+'.join(sorted(a.get('backends', ['z3']))) + ' (z3 %s)' % _z3v(),
+                            'seconds': round(a['seconds'], 4)})
             if ok:
                 n_dis += 1
                 continue
